@@ -386,7 +386,8 @@ class dotdict_base( object ):
                              for k,v in super( dotdict_base, self ).items() )
 
     def __copy__( self ):
-        return type( self )( (k,copy.copy( v ))
+        """Must copy each layer, including those held in lists; a list's own copy shares its elements."""
+        return type( self )( (k,[ copy.copy( e ) for e in v ] if isinstance( v, list ) else copy.copy( v ))
                              for k,v in super( dotdict_base, self ).items() )
 
 
